@@ -9,6 +9,7 @@ import (
 
 	"github.com/avast/retry-go/v4"
 	"github.com/nuts-foundation/go-stoabs"
+	"github.com/nuts-foundation/nuts-node/crypto/hash"
 )
 
 //verif:stub github.com/avast/retry-go/v4.Do => hRetryDo
@@ -278,5 +279,150 @@ func H14c_twin() {
 	vRunUntilStop(func() { _ = s.Add(context.Background(), hNewTx(vRef(1), 0, [32]byte{}, nil), nil) })
 	if n == 0 {
 		vAssert(false, "H14c_twin.reach: reachable")
+	}
+}
+
+// H14d: payload events. Two transactions admitted without payload (private transactions: the payload arrives
+// later through WritePayload), or one of them admitted together with its payload; the two payloads are equal or
+// different. A persistent subscriber that selects payload events and always succeeds must be handed, for EACH of
+// the two transactions, an event carrying that transaction's reference and exactly its payload - also when the
+// payload bytes are already in the payload store because another transaction has the same payload.
+func H14d() {
+	hRetryLog = nil
+	kv := newHKV()
+	ctx := context.Background()
+	s := hNewState(kv, 2, func(Transaction) bool { return true })
+	rec := &hRecorder{}
+	filter := func(e Event) bool { return e.Type == PayloadEventType }
+	_, err := s.Notifier("sub", rec.receive, WithPersistency(kv), WithSelectionFilter(filter))
+	vAssert(err == nil, "H14d.notifier: cannot register")
+
+	p1 := []byte{0x50, 1}
+	p2 := []byte{0x50, 2}
+	vTag("same_payload")
+	if vBool() {
+		vCover("same-payload")
+		p2 = []byte{0x50, 1}
+	} else {
+		vCover("different-payloads")
+	}
+	root := hNewTx(vRef(1), 0, hash.SHA256Sum(p1), nil)
+	child := hNewTx(vRef(1), 1, hash.SHA256Sum(p2), []hash.SHA256Hash{root.ref})
+	vAssume(child.ref != root.ref)
+
+	vTag("root_with_payload")
+	rootWithPayload := vBool()
+	if rootWithPayload {
+		vAssert(s.Add(ctx, root, p1) == nil, "H14d.add_root: valid root with payload refused")
+	} else {
+		vAssert(s.Add(ctx, root, nil) == nil, "H14d.add_root: valid root refused")
+	}
+	vAssert(s.Add(ctx, child, nil) == nil, "H14d.add_child: valid child refused")
+	if !rootWithPayload {
+		vAssert(s.WritePayload(ctx, root, root.payload, p1) == nil, "H14d.write_root: WritePayload failed")
+	}
+	vAssert(s.WritePayload(ctx, child, child.payload, p2) == nil, "H14d.write_child: WritePayload failed")
+	vWait()
+
+	for i, t := range []*transaction{root, child} {
+		want := p1
+		if i == 1 {
+			want = p2
+		}
+		n := 0
+		for _, e := range rec.events {
+			if e.Hash == t.ref {
+				n++
+				vAssert(e.Type == PayloadEventType, "H14d.filter_respected: subscriber got an event its filter rejects")
+				vAssert(len(e.Payload) == len(want) && e.Payload[0] == want[0] && e.Payload[1] == want[1], "H14d.event_carries_payload: payload event does not carry the transaction's payload")
+			}
+		}
+		if i == 0 {
+			vAssert(n >= 1, "H14d.root_payload_delivered: payload of an admitted transaction never reached the subscriber")
+		} else {
+			vAssert(n >= 1, "H14d.second_payload_delivered: payload of an admitted transaction never reached the subscriber (same payload as an earlier transaction?)")
+		}
+	}
+	// nothing is left behind as a pending job once the subscriber completed
+	pending := 0
+	_ = kv.ReadShelf(ctx, "_sub_jobs", func(r stoabs.Reader) error {
+		return r.Iterate(func(stoabs.Key, []byte) error { pending++; return nil }, stoabs.BytesKey{})
+	})
+	vAssert(pending == 0, "H14d.completed_jobs_removed: completed deliveries left stored jobs")
+}
+
+func H14d_twin() {
+	kv := newHKV()
+	ctx := context.Background()
+	s := hNewState(kv, 2, func(Transaction) bool { return true })
+	rec := &hRecorder{}
+	_, _ = s.Notifier("sub", rec.receive, WithPersistency(kv), WithSelectionFilter(func(e Event) bool { return e.Type == PayloadEventType }))
+	p := []byte{0x50, 1}
+	root := hNewTx(vRef(1), 0, hash.SHA256Sum(p), nil)
+	_ = s.Add(ctx, root, nil)
+	_ = s.WritePayload(ctx, root, root.payload, p)
+	vWait()
+	if len(rec.events) == 1 && rec.events[0].Hash == root.ref {
+		vAssert(false, "H14d_twin.reach: reachable")
+	}
+}
+
+// H14e: the retry budget across a restart. A job with Retries = r recorded before the stop is found by
+// Notifier.Run() after the restart; the subscriber fails the start-up attempt with a retryable error and succeeds
+// from then on. As long as the budget (maxRetries attempts) is not spent by the start-up attempt, the event goes
+// back into the retry loop and is delivered; otherwise it stays stored and visible as failed.
+func H14e() {
+	hRetryLog = nil
+	kv := newHKV()
+	ctx := context.Background()
+	calls := 0
+	recv := func(Event) (bool, error) {
+		calls++
+		if calls == 1 {
+			return false, errors.New("try again")
+		}
+		return true, nil
+	}
+	n := NewNotifier("sub", recv, WithPersistency(kv), WithContext(ctx)).(*notifier)
+	tx := hNewTx(vRef(1), 0, [32]byte{}, nil)
+	vTag("retries")
+	r := vRange(0, 25)
+	ev := Event{Type: TransactionEventType, Hash: tx.ref, Transaction: tx, Retries: r}
+	vAssert(kv.Write(ctx, func(wtx stoabs.WriteTx) error { return n.Save(wtx, ev) }) == nil, "H14e.save_ok: Save failed")
+
+	vAssert(n.Run() == nil, "H14e.run_ok: Run failed")
+	vWait()
+
+	var after *Event
+	_ = kv.ReadShelf(ctx, n.shelfName(), func(rd stoabs.Reader) error {
+		after, _ = n.readEvent(rd, ev.Hash)
+		return nil
+	})
+	failed, ferr := n.GetFailedEvents()
+	vAssert(ferr == nil, "H14e.failed_events_ok: GetFailedEvents failed")
+	vAssert(calls >= 1, "H14e.attempted_at_startup: a stored job was not attempted at start-up")
+	if r+1 < maxRetries {
+		vCover("budget-left")
+		vAssert(calls >= 2, "H14e.retried_while_budget_left: a job with retry budget left was abandoned after the start-up attempt")
+		vAssert(after == nil, "H14e.completed_job_removed: job still stored after the subscriber completed")
+	} else {
+		vCover("budget-spent")
+		vAssert(after != nil, "H14e.undelivered_stays_stored: an undelivered event vanished")
+		vAssert(len(failed) == 1, "H14e.undelivered_visible_as_failed: an undelivered event with spent budget is not reported as failed")
+	}
+}
+
+func H14e_twin() {
+	kv := newHKV()
+	ctx := context.Background()
+	calls := 0
+	n := NewNotifier("sub", func(Event) (bool, error) { calls++; return calls > 1, nil }, WithPersistency(kv), WithContext(ctx)).(*notifier)
+	tx := hNewTx(vRef(1), 0, [32]byte{}, nil)
+	ev := Event{Type: TransactionEventType, Hash: tx.ref, Transaction: tx, Retries: vRange(0, 25)}
+	_ = kv.Write(ctx, func(wtx stoabs.WriteTx) error { return n.Save(wtx, ev) })
+	_ = n.Run()
+	vWait()
+	if calls == 2 {
+		vAssert(false, "H14e_twin.reach: reachable")
 	}
 }
